@@ -36,11 +36,11 @@ res["ctest_modified"] = "100% tests passed" in o or ("tests failed" in o and all
 res["ctest_tail"] = o[-400:]
 # 2. demo on modified and on stock
 demo = meta.get("demo_cmd", "")
-rc_mod, o_mod = sh("cd %s && timeout 300 %s" % (wt, demo), timeout=400)
+rc_mod, o_mod = sh("cd %s && timeout 300 bash -c %s" % (wt, __import__("shlex").quote(demo)), timeout=400)
 stock_demo = demo.replace(wt + "/_build", "/repo/_build").replace(wt, "/repo") if demo else ""
 # the demonstration file itself lives in the seed dir: keep that path
 stock_demo = stock_demo.replace("/repo/" + os.path.basename(out), out)
-rc_stock, o_stock = sh("cd /repo && timeout 300 %s" % stock_demo, timeout=400)
+rc_stock, o_stock = sh("cd /repo && timeout 300 bash -c %s" % __import__("shlex").quote(stock_demo), timeout=400)
 res["demo_modified_rc"] = rc_mod
 res["demo_stock_rc"] = rc_stock
 res["demo_modified_tail"] = o_mod[-300:]
